@@ -955,6 +955,7 @@ theorem one_congr {s s' : Sys} (g : One s) (ht : s'.threads = s.threads) (hi : s
 inductive ReachG (s0 : Sys) : Sys → Prop
   | init : ReachG s0 s0
   | thread {s : Sys} (t : Tid) (h : Hints) : ReachG s0 s → t < s.threads.length →
+      (enabledThr s t = true ∨ mustPark s t = false) →
       KeepsRegs s (stepThread s t h) t → ReachG s0 (stepThread s t h)
   | ext {s : Sys} (c : Choice) (h : Hints) : ReachG s0 s → (∀ t, c ≠ .run t) → ReachG s0 (step s c h)
   | clear {s : Sys} : ReachG s0 s → ReachG s0 { s with obs := [] }
@@ -965,9 +966,17 @@ theorem reachG_one (gr : Gran) (o : Bool) (cfgs : List Cfg) {s : Sys} (h : Reach
     refine ⟨by simp [PR, procIds, init], fun i hi => ?_, fun u i hu _ _ => by simp [init] at hu⟩
     have : ((init gr o cfgs).inst i).cmd = .none := by unfold Sys.inst; simp [init]
     rw [this] at hi; cases hi
-  | thread t hh _ ht hk ih => exact stepThread_one _ t hh ht ih hk
+  | thread t hh _ ht _ hk ih => exact stepThread_one _ t hh ht ih hk
   | ext c hh _ hc ih => exact ext_one _ c hh hc ih
   | clear _ ih => exact one_congr ih rfl rfl rfl
+
+/-- such an execution is in particular one the model passes through -/
+theorem ReachG.toF {s0 s : Sys} (h : ReachG s0 s) : ReachF s0 s := by
+  induction h with
+  | init => exact ReachF.init
+  | thread t hh _ ht hen _ ih => exact ReachF.thread t hh ih ht hen
+  | ext c hh _ hc ih => exact ReachF.ext c hh ih hc
+  | clear _ ih => exact ReachF.clear ih
 
 theorem filter_length_le_one {α : Type} (p : α → Bool) :
     ∀ (l : List α), (∀ (i j : Nat) (hi : i < l.length) (hj : j < l.length), p l[i] = true → p l[j] = true → i = j) →
